@@ -139,7 +139,8 @@ func (s *Protocol) Invoke(ctx context.Context, req []byte) (rsp []byte) {
 				TLOG.Errorf("RequestID:%d, Found err: %v", reqPackage.IRequestId, err)
 				rspPackage.IRet = 1
 				rspPackage.SResultDesc = err.Error()
-				if tarsErr, ok := err.(*Error); ok {
+				// code 0 means success on the wire: an error carrying it keeps the generic code 1
+				if tarsErr, ok := err.(*Error); ok && tarsErr.Code != 0 {
 					rspPackage.IRet = tarsErr.Code
 				}
 			}
